@@ -1,17 +1,821 @@
-//! module `adapters` — streams `adapters.*` (not built yet).
+//! module `adapters` (serves C03, and the trait-default part of C01) — clipped / cropped /
+//! translated / colour-converted draw targets and the three trait defaults are exact.
+//!
+//! Stream (one op line; the result line is compared with the Lean model `EG.Model.Adapters`):
+//!   adapters.run px py pw ph <stack> <calls>
+//!     px py pw ph  bounding box of the root (parent) recording target
+//!     <stack>      `-` or adapters separated by `/`, first = created on the root, last = the target
+//!                  the calls are issued on:  `c:x,y,w,h` clipped, `r:x,y,w,h` cropped,
+//!                  `t:dx,dy` translated, `v` colour converted
+//!     <calls>      `-` or calls separated by `|` in the format of `Call::fmt` of common.rs:
+//!                  `di:x,y,c;x,y,c` (`di:-` empty)  `fc:x,y,w,h:c,c,c` (`fc:..:-` empty stream)
+//!                  `fs:x,y,w,h:c`  `cl:c`
+//!   result:  bb=<reported box of every adapter, `/` separated, `-` if none>
+//!            l1=<call log of an R1 root> m1=<its final map> l2=<call log of an R2 root> m2=<its map>
+//!   The same op is run on a root that implements `draw_iter` only (R1) and on a root with native
+//!   fill methods (R2). A panic of the real code is reported as `panic:<class>`.
+//!
+//! Colour types: the root has colour type `L0`; the k-th colour-converted adapter (counted from
+//! the root) converts `L(k+1) -> L(k)` by `From`, implemented as `c -> 3*c + k + 1` (so the
+//! composition order and the number of applications are visible in the result).
+//!
+//! Oracle (the property text, evaluated on the real results, independently of the adapter code):
+//! a set-theoretic reference map is computed by applying the calls directly to a plain map under
+//! the composed transformation (total shift, accumulated clip region ∩ root box, composed colour
+//! map); after *every prefix* of the call sequence the root's map must equal the reference
+//! (`C03:map-differs-from-reference`), nothing outside the accumulated clip region may ever be
+//! offered to the root (`C03:pixel-outside-clip-reached-parent`), reported boxes are the documented
+//! ones (`C03:reported-bbox`), and the R1 and R2 roots end with the same map
+//! (`C01:default-vs-native-map`).
 use crate::common::*;
+use embedded_graphics::{
+    draw_target::DrawTargetExt,
+    pixelcolor::raw::{RawData, RawU32},
+    prelude::*,
+    primitives::Rectangle,
+    Pixel,
+};
 
 pub struct M;
+
+// ---------------------------------------------------------------------------------------------
+// colour levels
+// ---------------------------------------------------------------------------------------------
+pub fn conv(k: u32, c: u32) -> u32 {
+    3 * c + k + 1
+}
+macro_rules! level {
+    ($name:ident) => {
+        #[derive(Clone, Copy, PartialEq, Eq, Debug)]
+        pub struct $name(pub u32);
+        impl From<RawU32> for $name {
+            fn from(r: RawU32) -> Self {
+                $name(r.into_inner())
+            }
+        }
+        impl From<$name> for RawU32 {
+            fn from(c: $name) -> RawU32 {
+                RawU32::new(c.0)
+            }
+        }
+        impl PixelColor for $name {
+            type Raw = RawU32;
+        }
+        impl ColNum for $name {
+            fn num(&self) -> u32 {
+                self.0
+            }
+            fn from_num(n: u32) -> Self {
+                $name(n)
+            }
+        }
+    };
+}
+level!(L0);
+level!(L1);
+level!(L2);
+level!(L3);
+impl From<L1> for L0 {
+    fn from(c: L1) -> L0 {
+        L0(conv(0, c.0))
+    }
+}
+impl From<L2> for L1 {
+    fn from(c: L2) -> L1 {
+        L1(conv(1, c.0))
+    }
+}
+impl From<L3> for L2 {
+    fn from(c: L3) -> L2 {
+        L2(conv(2, c.0))
+    }
+}
+pub trait Lvl: ColNum {
+    type Next: Lvl + Into<Self>;
+}
+impl Lvl for L0 {
+    type Next = L1;
+}
+impl Lvl for L1 {
+    type Next = L2;
+}
+impl Lvl for L2 {
+    type Next = L3;
+}
+impl Lvl for L3 {
+    type Next = L3; // never reached: at most three adapters
+}
+
+// ---------------------------------------------------------------------------------------------
+// ops
+// ---------------------------------------------------------------------------------------------
+#[derive(Clone, Debug, PartialEq)]
+pub enum Ad {
+    Clip(Rectangle),
+    Crop(Rectangle),
+    Trans(Point),
+    Conv,
+}
+impl Ad {
+    fn fmt(&self) -> String {
+        match self {
+            Ad::Clip(r) => format!("c:{}", fmt_rect(r)),
+            Ad::Crop(r) => format!("r:{}", fmt_rect(r)),
+            Ad::Trans(d) => format!("t:{},{}", d.x, d.y),
+            Ad::Conv => "v".into(),
+        }
+    }
+}
+fn parse_rect4(s: &str) -> Rectangle {
+    let v: Vec<i64> = s.split(',').map(|t| t.parse().expect("bad rect")).collect();
+    Rectangle::new(Point::new(v[0] as i32, v[1] as i32), Size::new(v[2] as u32, v[3] as u32))
+}
+fn parse_stack(s: &str) -> Vec<Ad> {
+    if s == "-" {
+        return vec![];
+    }
+    s.split('/')
+        .map(|a| {
+            if let Some(r) = a.strip_prefix("c:") {
+                Ad::Clip(parse_rect4(r))
+            } else if let Some(r) = a.strip_prefix("r:") {
+                Ad::Crop(parse_rect4(r))
+            } else if let Some(d) = a.strip_prefix("t:") {
+                let v: Vec<i32> = d.split(',').map(|t| t.parse().expect("bad offset")).collect();
+                Ad::Trans(Point::new(v[0], v[1]))
+            } else if a == "v" {
+                Ad::Conv
+            } else {
+                panic!("bad adapter {}", a)
+            }
+        })
+        .collect()
+}
+fn parse_calls(s: &str) -> Vec<Call> {
+    if s == "-" {
+        return vec![];
+    }
+    s.split('|')
+        .map(|c| {
+            if let Some(px) = c.strip_prefix("di:") {
+                if px == "-" {
+                    Call::DrawIter(vec![])
+                } else {
+                    Call::DrawIter(
+                        px.split(';')
+                            .map(|p| {
+                                let v: Vec<i64> = p.split(',').map(|t| t.parse().expect("bad pixel")).collect();
+                                ((v[0] as i32, v[1] as i32), v[2] as u32)
+                            })
+                            .collect(),
+                    )
+                }
+            } else if let Some(r) = c.strip_prefix("fc:") {
+                let (a, cs) = r.split_once(':').expect("bad fc");
+                let cs = if cs == "-" { vec![] } else { cs.split(',').map(|t| t.parse().expect("bad colour")).collect() };
+                Call::FillContiguous(parse_rect4(a), cs)
+            } else if let Some(r) = c.strip_prefix("fs:") {
+                let (a, col) = r.split_once(':').expect("bad fs");
+                Call::FillSolid(parse_rect4(a), col.parse().expect("bad colour"))
+            } else if let Some(col) = c.strip_prefix("cl:") {
+                Call::Clear(col.parse().expect("bad colour"))
+            } else {
+                panic!("bad call {}", c)
+            }
+        })
+        .collect()
+}
+fn fmt_calls(calls: &[Call]) -> String {
+    if calls.is_empty() {
+        "-".into()
+    } else {
+        calls.iter().map(|c| c.fmt()).collect::<Vec<_>>().join("|")
+    }
+}
+fn fmt_stack(stack: &[Ad]) -> String {
+    if stack.is_empty() {
+        "-".into()
+    } else {
+        stack.iter().map(|c| c.fmt()).collect::<Vec<_>>().join("/")
+    }
+}
+fn fmt_op(parent: &Rectangle, stack: &[Ad], calls: &[Call]) -> String {
+    format!("adapters.run {} {} {}", rect_toks(parent), fmt_stack(stack), fmt_calls(calls))
+}
+
+// ---------------------------------------------------------------------------------------------
+// running the real adapters: the nesting is static in Rust, so the recursion over the stack is
+// unrolled by depth (go3 -> go2 -> go1 -> go0).
+// ---------------------------------------------------------------------------------------------
+fn exec<T: DrawTarget<Color = C, Error = TErr>, C: ColNum>(t: &mut T, calls: &[Call]) {
+    for c in calls {
+        match c {
+            Call::DrawIter(px) => t
+                .draw_iter(px.iter().map(|((x, y), c)| Pixel(Point::new(*x, *y), C::from_num(*c))))
+                .unwrap(),
+            Call::FillContiguous(a, cs) => t.fill_contiguous(a, cs.iter().map(|c| C::from_num(*c))).unwrap(),
+            Call::FillSolid(a, c) => t.fill_solid(a, C::from_num(*c)).unwrap(),
+            Call::Clear(c) => t.clear(C::from_num(*c)).unwrap(),
+        }
+    }
+}
+fn go0<T: DrawTarget<Color = C, Error = TErr>, C: Lvl>(t: &mut T, stack: &[Ad], calls: &[Call], _bbs: &mut Vec<Rectangle>) {
+    assert!(stack.is_empty(), "adapter stack deeper than 3");
+    exec(t, calls)
+}
+macro_rules! go {
+    ($name:ident, $next:ident) => {
+        fn $name<T: DrawTarget<Color = C, Error = TErr>, C: Lvl>(
+            t: &mut T,
+            stack: &[Ad],
+            calls: &[Call],
+            bbs: &mut Vec<Rectangle>,
+        ) {
+            match stack.split_first() {
+                None => exec(t, calls),
+                Some((Ad::Clip(r), rest)) => {
+                    let mut a = t.clipped(r);
+                    bbs.push(a.bounding_box());
+                    $next::<_, C>(&mut a, rest, calls, bbs)
+                }
+                Some((Ad::Crop(r), rest)) => {
+                    let mut a = t.cropped(r);
+                    bbs.push(a.bounding_box());
+                    $next::<_, C>(&mut a, rest, calls, bbs)
+                }
+                Some((Ad::Trans(d), rest)) => {
+                    let mut a = t.translated(*d);
+                    bbs.push(a.bounding_box());
+                    $next::<_, C>(&mut a, rest, calls, bbs)
+                }
+                Some((Ad::Conv, rest)) => {
+                    let mut a = t.color_converted::<C::Next>();
+                    bbs.push(a.bounding_box());
+                    $next::<_, C::Next>(&mut a, rest, calls, bbs)
+                }
+            }
+        }
+    };
+}
+go!(go1, go0);
+go!(go2, go1);
+go!(go3, go2);
+
+/// (reported boxes, R1 root, R2 root) after the calls, or the panic message of the real code
+fn run_real(parent: &Rectangle, stack: &[Ad], calls: &[Call]) -> Result<(Vec<Rectangle>, Rec, Rec), String> {
+    let r = std::panic::catch_unwind(std::panic::AssertUnwindSafe(|| {
+        let mut bbs1 = Vec::new();
+        let mut r1 = R1::<L0>::new(*parent);
+        go3::<_, L0>(&mut r1, stack, calls, &mut bbs1);
+        let mut bbs2 = Vec::new();
+        let mut r2 = R2::<L0>::new(*parent);
+        go3::<_, L0>(&mut r2, stack, calls, &mut bbs2);
+        assert!(bbs1 == bbs2, "reported boxes depend on the root kind");
+        (bbs1, r1.rec, r2.rec)
+    }));
+    r.map_err(|e| {
+        if let Some(s) = e.downcast_ref::<&str>() {
+            s.to_string()
+        } else if let Some(s) = e.downcast_ref::<String>() {
+            s.clone()
+        } else {
+            "?".to_string()
+        }
+    })
+}
+
+// ---------------------------------------------------------------------------------------------
+// set-theoretic reference (i64 arithmetic on point sets; uses no adapter code)
+// ---------------------------------------------------------------------------------------------
+/// non-empty half-open point set [x0,x1) x [y0,y1)
+#[derive(Clone, Copy, Debug, PartialEq)]
+struct Iv {
+    x0: i64,
+    x1: i64,
+    y0: i64,
+    y1: i64,
+}
+fn pts_of(r: &Rectangle) -> Option<Iv> {
+    if r.size.width == 0 || r.size.height == 0 {
+        None
+    } else {
+        Some(Iv {
+            x0: r.top_left.x as i64,
+            x1: r.top_left.x as i64 + r.size.width as i64,
+            y0: r.top_left.y as i64,
+            y1: r.top_left.y as i64 + r.size.height as i64,
+        })
+    }
+}
+fn iv_and(a: Option<Iv>, b: Option<Iv>) -> Option<Iv> {
+    let (a, b) = (a?, b?);
+    let r = Iv { x0: a.x0.max(b.x0), x1: a.x1.min(b.x1), y0: a.y0.max(b.y0), y1: a.y1.min(b.y1) };
+    if r.x0 < r.x1 && r.y0 < r.y1 {
+        Some(r)
+    } else {
+        None
+    }
+}
+fn iv_shift(a: Option<Iv>, dx: i64, dy: i64) -> Option<Iv> {
+    a.map(|a| Iv { x0: a.x0 + dx, x1: a.x1 + dx, y0: a.y0 + dy, y1: a.y1 + dy })
+}
+fn iv_has(a: &Option<Iv>, x: i64, y: i64) -> bool {
+    match a {
+        Some(a) => a.x0 <= x && x < a.x1 && a.y0 <= y && y < a.y1,
+        None => false,
+    }
+}
+/// row-major points of an area
+fn area_points(a: &Rectangle) -> Vec<(i64, i64)> {
+    let mut v = Vec::new();
+    if let Some(iv) = pts_of(a) {
+        for y in iv.y0..iv.y1 {
+            for x in iv.x0..iv.x1 {
+                v.push((x, y));
+            }
+        }
+    }
+    v
+}
+
+struct Reference {
+    /// top coordinates + shift = root coordinates
+    sx: i64,
+    sy: i64,
+    /// accumulated clip region in root coordinates; `None` = no clipped adapter in the stack
+    clip: Option<Option<Iv>>,
+    /// points of the top target's bounding box, in the top target's coordinates
+    top_box: Option<Iv>,
+    /// documented reported boxes
+    boxes: Vec<Rectangle>,
+    /// number of colour-converted adapters
+    nconv: u32,
+    root: Option<Iv>,
+}
+impl Reference {
+    fn new(parent: &Rectangle, stack: &[Ad]) -> Self {
+        let mut r = Reference { sx: 0, sy: 0, clip: None, top_box: pts_of(parent), boxes: vec![], nconv: 0, root: pts_of(parent) };
+        let mut bbox = *parent; // documented box of the current top, library Rectangle arithmetic only
+        for a in stack {
+            match a {
+                Ad::Clip(c) => {
+                    // documented: the clip area is intersected with the parent's bounding box
+                    r.top_box = iv_and(r.top_box, pts_of(c));
+                    let in_root = iv_shift(r.top_box, r.sx, r.sy);
+                    r.clip = Some(match r.clip {
+                        None => in_root,
+                        Some(old) => iv_and(old, in_root),
+                    });
+                    bbox = c.intersection(&bbox);
+                }
+                Ad::Crop(c) => {
+                    // documented: origin moves to the top-left corner of (area ∩ parent box); the
+                    // box is that intersection's size at the origin; drawing is not clipped
+                    let i = c.intersection(&bbox);
+                    r.top_box = iv_shift(iv_and(r.top_box, pts_of(c)), -(i.top_left.x as i64), -(i.top_left.y as i64));
+                    r.sx += i.top_left.x as i64;
+                    r.sy += i.top_left.y as i64;
+                    bbox = Rectangle::new(Point::zero(), i.size);
+                }
+                Ad::Trans(d) => {
+                    r.top_box = iv_shift(r.top_box, -(d.x as i64), -(d.y as i64));
+                    r.sx += d.x as i64;
+                    r.sy += d.y as i64;
+                    bbox = bbox.translate(-*d);
+                }
+                Ad::Conv => {
+                    r.nconv += 1;
+                }
+            }
+            r.boxes.push(bbox);
+        }
+        r
+    }
+    fn colour(&self, c: u32) -> u32 {
+        // the top colour type is L(nconv); the outermost converted adapter is applied first
+        let mut c = c;
+        for k in (0..self.nconv).rev() {
+            c = conv(k, c);
+        }
+        c
+    }
+    /// the writes a call means, in the top target's coordinates and colours
+    fn direct(&self, call: &Call) -> Vec<((i64, i64), u32)> {
+        match call {
+            Call::DrawIter(px) => px.iter().map(|((x, y), c)| ((*x as i64, *y as i64), *c)).collect(),
+            Call::FillContiguous(a, cs) => area_points(a).into_iter().zip(cs.iter().copied()).collect(),
+            Call::FillSolid(a, c) => area_points(a).into_iter().map(|p| (p, *c)).collect(),
+            Call::Clear(c) => match self.top_box {
+                None => vec![],
+                Some(iv) => {
+                    let mut v = Vec::new();
+                    for y in iv.y0..iv.y1 {
+                        for x in iv.x0..iv.x1 {
+                            v.push(((x, y), *c));
+                        }
+                    }
+                    v
+                }
+            },
+        }
+    }
+    fn allowed(&self, x: i64, y: i64) -> bool {
+        iv_has(&self.root, x, y)
+            && match &self.clip {
+                None => true,
+                Some(c) => iv_has(c, x, y),
+            }
+    }
+    /// apply one call to the reference map; returns (kept, dropped) counts
+    fn apply(&self, map: &mut PMap, call: &Call) -> (usize, usize) {
+        let mut kept = 0;
+        let mut dropped = 0;
+        for ((x, y), c) in self.direct(call) {
+            let (rx, ry) = (x + self.sx, y + self.sy);
+            if self.allowed(rx, ry) {
+                map.insert((ry as i32, rx as i32), self.colour(c));
+                kept += 1;
+            } else {
+                dropped += 1;
+            }
+        }
+        (kept, dropped)
+    }
+}
+
+/// all points a logged root call offers to the root
+fn offered(c: &Call, root: &Rectangle) -> Vec<(i64, i64)> {
+    match c {
+        Call::DrawIter(px) => px.iter().map(|((x, y), _)| (*x as i64, *y as i64)).collect(),
+        Call::FillContiguous(a, cs) => area_points(a).into_iter().take(cs.len()).collect(),
+        Call::FillSolid(a, _) => area_points(a),
+        Call::Clear(_) => area_points(root),
+    }
+}
+
+// ---------------------------------------------------------------------------------------------
+// generator helpers
+// ---------------------------------------------------------------------------------------------
+fn grid_rects(gx: i32, gy: i32, ox: i32, oy: i32) -> Vec<Rectangle> {
+    let mut v = Vec::new();
+    for x0 in 0..=gx {
+        for x1 in x0..=gx {
+            for y0 in 0..=gy {
+                for y1 in y0..=gy {
+                    v.push(Rectangle::new(Point::new(x0 + ox, y0 + oy), Size::new((x1 - x0) as u32, (y1 - y0) as u32)));
+                }
+            }
+        }
+    }
+    v
+}
+fn stream_lengths(a: &Rectangle) -> Vec<usize> {
+    let w = a.size.width as usize;
+    let h = a.size.height as usize;
+    let mut v = vec![0, 1, 2, w, (w * h).saturating_sub(1), w * h, w * h + 3];
+    v.sort();
+    v.dedup();
+    v
+}
+/// the standard call battery for one area: fill_contiguous with every stream length of the
+/// scope, fill_solid, draw_iter with unordered / duplicate / outside points, clear
+fn battery(a: &Rectangle, lo: Point, hi: Point) -> Vec<Call> {
+    let mut calls = Vec::new();
+    let mut base = 1u32;
+    for len in stream_lengths(a) {
+        calls.push(Call::FillContiguous(*a, (0..len as u32).map(|i| base + i).collect()));
+        base += 20;
+    }
+    calls.push(Call::FillSolid(*a, 7));
+    // unordered, with a duplicate point (last write wins) and points outside everything
+    let px = vec![
+        ((hi.x, hi.y), 31),
+        ((lo.x, lo.y), 32),
+        ((a.top_left.x, a.top_left.y), 33),
+        ((a.top_left.x + a.size.width as i32 - 1, a.top_left.y + a.size.height as i32 - 1), 34),
+        ((a.top_left.x, a.top_left.y), 35),
+        ((lo.x - 2, hi.y + 2), 36),
+        ((0, 0), 37),
+        ((1, 0), 38),
+        ((0, 0), 39),
+    ];
+    calls.push(Call::DrawIter(px));
+    calls.push(Call::Clear(9));
+    calls.push(Call::FillContiguous(*a, (0..(a.size.width * a.size.height)).map(|i| 200 + i).collect()));
+    calls
+}
+
+fn random_rect(rng: &mut Rng, scale: i64) -> Rectangle {
+    let x = rng.range(-scale, scale);
+    let y = rng.range(-scale, scale);
+    let w = if rng.chance(1, 8) { 0 } else { rng.range(0, scale + scale / 2) };
+    let h = if rng.chance(1, 8) { 0 } else { rng.range(0, scale + scale / 2) };
+    Rectangle::new(Point::new(x as i32, y as i32), Size::new(w as u32, h as u32))
+}
+fn random_ad(rng: &mut Rng, scale: i64) -> Ad {
+    match rng.below(7) {
+        0 | 1 => Ad::Clip(random_rect(rng, scale)),
+        2 | 3 => Ad::Crop(random_rect(rng, scale)),
+        4 | 5 => Ad::Trans(Point::new(rng.range(-scale, scale) as i32, rng.range(-scale, scale) as i32)),
+        _ => Ad::Conv,
+    }
+}
+fn random_call(rng: &mut Rng, scale: i64) -> Call {
+    match rng.below(8) {
+        0 | 1 => {
+            let n = rng.below(9);
+            let mut px = Vec::new();
+            for _ in 0..n {
+                if !px.is_empty() && rng.chance(1, 4) {
+                    let p: ((i32, i32), u32) = *rng.pick(&px);
+                    px.push((p.0, rng.below(90) as u32));
+                } else {
+                    px.push(((rng.range(-scale, scale + scale / 2) as i32, rng.range(-scale, scale + scale / 2) as i32), rng.below(90) as u32));
+                }
+            }
+            Call::DrawIter(px)
+        }
+        2 | 3 | 4 => {
+            let a = random_rect(rng, scale);
+            let total = (a.size.width * a.size.height) as usize;
+            let lens = stream_lengths(&a);
+            let len = if rng.chance(1, 3) { rng.below(total as u64 + 4) as usize } else { *rng.pick(&lens) };
+            let base = rng.below(50) as u32;
+            Call::FillContiguous(a, (0..len as u32).map(|i| base + i).collect())
+        }
+        5 | 6 => Call::FillSolid(random_rect(rng, scale), rng.below(90) as u32),
+        _ => Call::Clear(rng.below(90) as u32),
+    }
+}
 
 impl Module for M {
     fn name(&self) -> &'static str {
         "adapters"
     }
     fn rule(&self) -> &'static str {
-        "not built yet"
+        "one op = root box x adapter stack (depth 0..=3 of clipped/cropped/translated/converted) x call sequence, run \
+         on an R1 (draw_iter only) and an R2 (native fills) root. Exhaustive part: every rectangle with corners in a \
+         small grid as clip / crop area x every such rectangle as drawing area x six root boxes (non-origin, larger, \
+         smaller, two empty), each with the call battery (fill_contiguous with stream lengths {0,1,2,w,wh-1,wh,wh+3}, \
+         fill_solid, draw_iter with unordered/duplicate/outside points, clear); all kind pairs (quick) / triples \
+         (thorough) of adapters over parameter samples; then seeded random histories of 1..=6 calls. An op is \
+         non-trivial when the reference map after the last call is non-empty; distinct = distinct op text."
     }
-    fn generate(&self, _pid: &str, _tier: Tier, _rng: &mut Rng, _emit: &mut dyn FnMut(String)) {}
-    fn execute(&self, op: &str, _ctx: &mut Ctx) -> String {
-        panic!("unknown op {}", op)
+
+    fn generate(&self, pid: &str, tier: Tier, rng: &mut Rng, emit: &mut dyn FnMut(String)) {
+        let quick = tier == Tier::Quick;
+        let c01 = pid == "C01";
+        let (gx, gy) = if quick || c01 { (3, 2) } else { (4, 3) };
+        let (ox, oy) = (-1, -1);
+        let lo = Point::new(ox, oy);
+        let hi = Point::new(ox + gx - 1, oy + gy - 1);
+        let grid = grid_rects(gx, gy, ox, oy);
+        let roots = [
+            Rectangle::new(Point::new(ox, oy), Size::new(gx as u32, gy as u32)),
+            Rectangle::new(Point::new(-3, -2), Size::new(gx as u32 + 4, gy as u32 + 3)),
+            Rectangle::new(Point::new(0, 0), Size::new(2, 1)),
+            Rectangle::new(Point::new(0, -1), Size::new(1, gy as u32)),
+            Rectangle::new(Point::new(1, 0), Size::new(0, 0)),
+            Rectangle::new(Point::new(0, 0), Size::new(3, 0)),
+        ];
+        // depth 0: the trait defaults against the native meaning
+        for root in &roots {
+            for a in &grid {
+                emit(fmt_op(root, &[], &battery(a, lo, hi)));
+            }
+        }
+        if !c01 {
+            // depth 1, exhaustive in (root, clip/crop area, drawing area)
+            for root in &roots {
+                for c in &grid {
+                    for a in &grid {
+                        let b = battery(a, lo, hi);
+                        emit(fmt_op(root, &[Ad::Clip(*c)], &b));
+                        emit(fmt_op(root, &[Ad::Crop(*c)], &b));
+                    }
+                }
+                for dx in -2..=2 {
+                    for dy in -1..=1 {
+                        for a in &grid {
+                            emit(fmt_op(root, &[Ad::Trans(Point::new(dx, dy))], &battery(a, lo, hi)));
+                        }
+                    }
+                }
+                for a in &grid {
+                    emit(fmt_op(root, &[Ad::Conv], &battery(a, lo, hi)));
+                }
+            }
+            // depth 2 (and 3 in thorough): every kind combination over parameter samples
+            let sample_rects = [
+                Rectangle::new(Point::new(0, 0), Size::new(2, 2)),
+                Rectangle::new(Point::new(-1, 0), Size::new(2, 1)),
+                Rectangle::new(Point::new(1, -1), Size::new(1, 2)),
+                Rectangle::new(Point::new(0, 0), Size::new(3, 0)),
+                Rectangle::new(Point::new(-2, -2), Size::new(5, 4)),
+            ];
+            let sample_offs = [Point::new(1, 0), Point::new(-1, 1), Point::new(0, -2)];
+            let mut ads: Vec<Ad> = Vec::new();
+            for r in &sample_rects {
+                ads.push(Ad::Clip(*r));
+                ads.push(Ad::Crop(*r));
+            }
+            for d in &sample_offs {
+                ads.push(Ad::Trans(*d));
+            }
+            ads.push(Ad::Conv);
+            let areas = [
+                Rectangle::new(Point::new(-1, -1), Size::new(3, 2)),
+                Rectangle::new(Point::new(0, 0), Size::new(2, 2)),
+                Rectangle::new(Point::new(1, 0), Size::new(3, 1)),
+                Rectangle::new(Point::new(-2, -1), Size::new(2, 3)),
+                Rectangle::new(Point::new(0, 0), Size::new(0, 2)),
+            ];
+            for root in &roots[..4] {
+                for a1 in &ads {
+                    for a2 in &ads {
+                        for a in &areas {
+                            emit(fmt_op(root, &[a1.clone(), a2.clone()], &battery(a, lo, hi)));
+                        }
+                    }
+                }
+            }
+            if !quick {
+                // depth 3: all 64 kind stacks, two parameter choices per kind
+                let small: Vec<Ad> = vec![
+                    Ad::Clip(sample_rects[0]),
+                    Ad::Clip(sample_rects[2]),
+                    Ad::Crop(sample_rects[0]),
+                    Ad::Crop(sample_rects[1]),
+                    Ad::Trans(sample_offs[0]),
+                    Ad::Trans(sample_offs[1]),
+                    Ad::Conv,
+                ];
+                for root in &roots[..3] {
+                    for a1 in &small {
+                        for a2 in &small {
+                            for a3 in &small {
+                                for a in &areas[..3] {
+                                    emit(fmt_op(root, &[a1.clone(), a2.clone(), a3.clone()], &battery(a, lo, hi)));
+                                }
+                            }
+                        }
+                    }
+                }
+            }
+        }
+        // seeded random histories
+        let n = match (c01, quick) {
+            (true, true) => 1500,
+            (true, false) => 20_000,
+            (false, true) => 4000,
+            (false, false) => 50_000,
+        };
+        for _ in 0..n {
+            let scale = *rng.pick(&[3i64, 5, 8, 16]);
+            let root = if rng.chance(1, 10) {
+                Rectangle::new(Point::new(rng.range(-3, 3) as i32, rng.range(-3, 3) as i32), Size::new(rng.below(2) as u32 * 4, 0))
+            } else {
+                random_rect(rng, scale)
+            };
+            let maxd = if quick { 2 } else { 3 };
+            let depth = rng.below(maxd + 1) as usize;
+            let stack: Vec<Ad> = (0..depth).map(|_| random_ad(rng, scale)).collect();
+            let ncalls = rng.range(1, 6) as usize;
+            let calls: Vec<Call> = (0..ncalls).map(|_| random_call(rng, scale)).collect();
+            emit(fmt_op(&root, &stack, &calls));
+        }
+    }
+
+    fn execute(&self, op: &str, ctx: &mut Ctx) -> String {
+        let mut t = Toks::new(op);
+        match t.str() {
+            "adapters.run" => {
+                let parent = t.rect();
+                let stack = parse_stack(t.str());
+                let calls = parse_calls(t.str());
+                ctx.count(&format!("depth:{}", stack.len()));
+                for a in &stack {
+                    ctx.count(match a {
+                        Ad::Clip(_) => "adapter:clipped",
+                        Ad::Crop(_) => "adapter:cropped",
+                        Ad::Trans(_) => "adapter:translated",
+                        Ad::Conv => "adapter:converted",
+                    });
+                }
+                if parent.is_zero_sized() {
+                    ctx.count("root:empty");
+                }
+                if parent.top_left != Point::zero() {
+                    ctx.count("root:non-origin");
+                }
+                let c01 = ctx.pid == "C01";
+                let (bbs, r1, r2) = match run_real(&parent, &stack, &calls) {
+                    Ok(x) => x,
+                    Err(msg) => {
+                        // the result text must not start with `panic:` (main.rs would add a second,
+                        // unclassified failure); the model reproduces the condition (`stackPanics`)
+                        let (class, res) = if msg.contains("subtract with overflow") {
+                            ("C03:panic-sub-overflow@src/iterator/contiguous.rs:row_skip", "rowskip-underflow")
+                        } else if msg.contains("overflow") {
+                            ("C03:panic-overflow", "overflow")
+                        } else {
+                            ("C03:panic-other", "other-panic")
+                        };
+                        ctx.count(&format!("panic:{}", res));
+                        ctx.fail(class, msg);
+                        return res.to_string();
+                    }
+                };
+                // ---- oracle -------------------------------------------------------------------
+                let reference = Reference::new(&parent, &stack);
+                ctx.expect(bbs == reference.boxes, "C03:reported-bbox", || {
+                    format!(
+                        "reported {} documented {}",
+                        bbs.iter().map(fmt_rect).collect::<Vec<_>>().join("/"),
+                        reference.boxes.iter().map(fmt_rect).collect::<Vec<_>>().join("/")
+                    )
+                });
+                // after every prefix of the history the root map equals the reference map
+                let mut refmap = PMap::new();
+                let mut any_dropped = false;
+                let mut any_kept = false;
+                for k in 1..=calls.len() {
+                    let call = &calls[k - 1];
+                    let (kept, dropped) = reference.apply(&mut refmap, call);
+                    any_kept |= kept > 0;
+                    any_dropped |= dropped > 0;
+                    match call {
+                        Call::DrawIter(_) => ctx.count("call:draw_iter"),
+                        Call::FillContiguous(a, cs) => {
+                            ctx.count("call:fill_contiguous");
+                            let total = (a.size.width as u64 * a.size.height as u64) as usize;
+                            ctx.count(if cs.len() < total {
+                                "stream:short"
+                            } else if cs.len() == total {
+                                "stream:exact"
+                            } else {
+                                "stream:long"
+                            });
+                            if kept > 0 && dropped > 0 {
+                                ctx.count("fill_contiguous:area-partly-outside");
+                            }
+                        }
+                        Call::FillSolid(..) => ctx.count("call:fill_solid"),
+                        Call::Clear(_) => ctx.count("call:clear"),
+                    }
+                    let (m1, m2) = if k == calls.len() {
+                        (r1.map.clone(), r2.map.clone())
+                    } else {
+                        match run_real(&parent, &stack, &calls[..k]) {
+                            Ok((_, a, b)) => (a.map, b.map),
+                            Err(_) => continue,
+                        }
+                    };
+                    if c01 {
+                        ctx.expect(m1 == m2, "C01:default-vs-native-map", || {
+                            format!("after call {}: default {} native {}", k, fmt_map(&m1), fmt_map(&m2))
+                        });
+                    } else {
+                        ctx.expect(m1 == refmap, "C03:map-differs-from-reference", || {
+                            format!("default root after call {}: {} reference {}", k, fmt_map(&m1), fmt_map(&refmap))
+                        });
+                        ctx.expect(m2 == refmap, "C03:map-differs-from-reference", || {
+                            format!("native root after call {}: {} reference {}", k, fmt_map(&m2), fmt_map(&refmap))
+                        });
+                    }
+                }
+                // nothing outside the accumulated clip region is ever offered to the root
+                if let Some(clip) = &reference.clip {
+                    for (which, rec) in [("default", &r1), ("native", &r2)] {
+                        let mut bad = None;
+                        for c in &rec.log {
+                            for (x, y) in offered(c, &parent) {
+                                if !iv_has(clip, x, y) || !iv_has(&reference.root, x, y) {
+                                    bad = Some((x, y));
+                                }
+                            }
+                        }
+                        ctx.expect(bad.is_none(), "C03:pixel-outside-clip-reached-parent", || {
+                            format!("{} root was offered {:?}", which, bad)
+                        });
+                    }
+                }
+                if !refmap.is_empty() {
+                    ctx.nontrivial(op);
+                }
+                if any_kept && any_dropped {
+                    ctx.count("history:partly-clipped");
+                }
+                format!(
+                    "bb={} l1={} m1={} l2={} m2={}",
+                    if bbs.is_empty() { "-".to_string() } else { bbs.iter().map(fmt_rect).collect::<Vec<_>>().join("/") },
+                    r1.fmt_log(),
+                    r1.fmt_map(),
+                    r2.fmt_log(),
+                    r2.fmt_map()
+                )
+            }
+            _ => panic!("unknown op {}", op),
+        }
     }
 }
